@@ -174,7 +174,7 @@ def _worker(mod, tier, base, w, nw, n, wfd, per_run_timeout, tok_r):
             pass
 
 
-def run_batch(mod, tier, base, n, nworkers, per_run_timeout=120,
+def run_batch(mod, tier, base, n, nworkers, per_run_timeout=900,
               batch_timeout=3600):
     """Fork workers over the seed range, merge their aggregates."""
     agg = Agg()
